@@ -102,6 +102,19 @@ def run(tier):
         if len(ck.samples) < 6 and (e["what"].get("kind") != "honest"):
             ck.sample({"scenario": sc.get("name"), "instance": e["what"], "rows": e["n"],
                        "spec_predicts": p, "prover": e["res"], "verify": e["verify"]})
+    # honest proofs of the scenario programs through C03's reference verifier (catches a
+    # consistent change of an atom / weight in quotient, linearisation and verifier)
+    import c03
+    progs = [{"id": str(s["id"]), "ops": s["compile"]["ops"]} for s in scens
+             if "prove" not in s and s["name"] in ("arith", "select", "points", "multi", "range", "logic-xor",
+                                                   "logic-and", "truncate", "mul-generator")]
+    byname = {}
+    for pgm, s in zip(progs, [s for s in scens if "prove" not in s and s["name"] in (
+            "arith", "select", "points", "multi", "range", "logic-xor", "logic-and", "truncate", "mul-generator")]):
+        byname.setdefault(s["name"], pgm)
+    summary = c03.reference_check(ck, list(byname.values()), tier=tier, tag="ref-C05")
+    ck.extra["reference_verifier"] = {k: summary.get(k) for k in
+                                      ("programs", "triples", "disagreements", "transcript_differences")}
     ck.extra["predicted_ok"] = n_ok
     ck.extra["predicted_unsatisfied"] = n_unsat
     ck.extra["predicted_size_mismatch"] = n_size
